@@ -206,6 +206,8 @@ LOOP_PROTOCOL_REPLAY = "import runpy, sys\nsys.argv = ['c13_loops']\nrunpy.run_p
 
 
 def replay(ob):
+    if "const_repr.literal_text" in ob["name"] and "[0]" in ob["name"]:
+        return LOOP_PROTOCOL_REPLAY.replace("c13_loops", "c13_empty_constant")
     if "local_functions." in ob["name"]:
         return LOOP_PROTOCOL_REPLAY.replace("c13_loops", "c13_local_functions")
     if "assigned_simultaneously" in ob["name"]:
